@@ -64,6 +64,8 @@ static int loadDoc(Library& lib, const std::string& xml) {
     tinyxml2::XMLDocument doc;
     if (doc.Parse(xml.c_str(), xml.size()) != tinyxml2::XML_SUCCESS)
         return -1;
+    if (!doc.FirstChildElement())
+        return -2;   // Library::load would call doc.PrintError() (writes to stdout) and return BAD_XML
     return static_cast<int>(LibraryHelper::loadxmldoc(lib, doc).errorcode);
 }
 
